@@ -47,6 +47,9 @@ class Contract:
     opaque_calls: list[str] = field(default_factory=list)  # callee names treated as havoc-nothing no-raise
     merge: bool = True          # merge states at control-flow joins (False: one VC set per path)
     instances: list[dict] = field(default_factory=list)   # named integer constants; the unit is verified once per entry
+    # re-entrancy discipline for event emitters: clauses that must hold whenever the body calls self.emit() (the state a
+    # listener observes); with any at_emit clause the unit also owes "no declared field of self is written after the emit"
+    at_emit: list[str] = field(default_factory=list)
 
 
 @dataclass
@@ -106,7 +109,7 @@ class Registry:
                     v["invariant"] = [inv]
                 v = LoopSpec(**v)
             loops[int(k)] = v
-        for key in ("requires", "ensures", "modifies", "tags"):
+        for key in ("requires", "ensures", "modifies", "tags", "at_emit"):
             if isinstance(kw.get(key), str):
                 kw[key] = [kw[key]]
         r = kw.get("raises")
@@ -124,6 +127,16 @@ class Registry:
         if isinstance(inv, str):
             kw["invariant"] = [inv]
         cs = ClassSpec(qual=qual, **kw)
+        prev = self.classes.get(qual)
+        if prev is not None:
+            # several sidecars may describe different aspects of one large class: declarations are merged
+            for name, t in cs.fields.items():
+                if name in prev.fields and prev.fields[name] != t:
+                    raise ValueError(f"{qual}.{name} declared as {prev.fields[name]} and as {t}")
+            prev.fields.update(cs.fields)
+            prev.ghost_fields.update(cs.ghost_fields)
+            prev.invariant.extend(x for x in cs.invariant if x not in prev.invariant)
+            return prev
         self.classes[qual] = cs
         return cs
 
